@@ -6,13 +6,13 @@ import (
 	"Havoc/pkg/packager"
 )
 
-var verifIDs = []string{"00000011", "00000022", "000000a3"}
-var verifIDn = []int{0x11, 0x22, 0xa3}
+var verifIDs = []string{"00000011", "00000022", "000000a3", "000000b4", "000000c5"}
+var verifIDn = []int{0x11, 0x22, 0xa3, 0xb4, 0xc5}
 
 // verifForest builds a forest over 3 agents from a parent vector (parent[i] in {-1,0,1,2}),
 // with links lists and TS_Links rows consistent with it (invariant I).
-func verifForest(t *Teamserver, parent [3]int) []*agent.Agent {
-	ag := make([]*agent.Agent, 3)
+func verifForest(t *Teamserver, parent []int) []*agent.Agent {
+	ag := make([]*agent.Agent, len(parent))
 	for i := range ag {
 		ag[i] = agent.VerifNewAgent(verifIDs[i])
 	}
@@ -27,13 +27,13 @@ func verifForest(t *Teamserver, parent [3]int) []*agent.Agent {
 	return ag
 }
 
-func verifAcyclic(parent [3]int) bool {
-	for i := 0; i < 3; i++ {
+func verifAcyclic(parent []int) bool {
+	for i := range parent {
 		k, steps := i, 0
 		for parent[k] >= 0 {
 			k = parent[k]
 			steps++
-			if steps > 3 {
+			if steps > len(parent) {
 				return false
 			}
 		}
@@ -64,8 +64,8 @@ func verifCheckForest(ag []*agent.Agent, what string) {
 		for k.Pivots.Parent != nil {
 			k = k.Pivots.Parent
 			steps++
-			verif_assert(steps <= 3, what+": no agent is its own ancestor")
-			if steps > 3 {
+			verif_assert(steps <= len(ag), what+": no agent is its own ancestor")
+			if steps > len(ag) {
 				break
 			}
 		}
@@ -87,22 +87,34 @@ func verifCheckForest(ag []*agent.Agent, what string) {
 			}
 		}
 	}
-	verif_assert(verifDBLinkCount(verifIDn) == live, what+": TS_Links holds no row for a link that is gone")
+	verif_assert(verifDBLinkCount(verifIDn[:len(ag)]) == live, what+": TS_Links holds no row for a link that is gone")
 }
 
 // H_c09_died: Died / UnlinkFromAll on an agent with k = 0..2 links (and possibly a parent)
 // completes and detaches all of them.
 func H_c09_died() {
-	var parent [3]int
-	for i := range parent {
-		parent[i] = nondet_choice("parent", 4) - 1
-		verif_assume(parent[i] != i)
+	n := 3 + nondet_choice("agents", 3) // 3, 4 or 5 registered agents
+	parent := make([]int, n)
+	if n == 3 {
+		for i := range parent {
+			parent[i] = nondet_choice("parent", 4) - 1
+			verif_assume(parent[i] != i)
+		}
+	} else {
+		// larger universes: stars and chains below agent 0 (an agent with up to 4 links)
+		parent[0] = -1
+		for i := 1; i < n; i++ {
+			parent[i] = nondet_choice("parent-star", 2) * (i - 1) // 0 = child of agent 0, else child of the previous agent
+			if parent[i] != 0 {
+				parent[i] = i - 1
+			}
+		}
 	}
 	verif_assume(verifAcyclic(parent))
 	t := verifNewTeamserver(true)
 	ag := verifForest(t, parent)
 	verifCheckForest(ag, "pre-state")
-	victim := nondet_choice("victim", 3)
+	victim := nondet_choice("victim", n)
 	t.Died(ag[victim])
 	verif_assert(!ag[victim].Active, "a dead agent is marked inactive")
 	verif_assert(len(ag[victim].Pivots.Links) == 0, "removing an agent detaches all of its links")
@@ -112,7 +124,7 @@ func H_c09_died() {
 		}
 	}
 	verifCheckForest(ag, "after death")
-	for _, other := range verifIDn {
+	for _, other := range verifIDn[:n] {
 		verif_assert(!verifDBHasLink(verifIDn[victim], other), "no TS_Links row keeps the dead agent as parent")
 		verif_assert(!verifDBHasLink(other, verifIDn[victim]), "no TS_Links row keeps the dead agent as child")
 	}
@@ -121,7 +133,7 @@ func H_c09_died() {
 
 // H_c09_markdead: the operator's mark dead / alive event goes through the same path.
 func H_c09_markdead() {
-	var parent [3]int
+	parent := make([]int, 3)
 	for i := range parent {
 		parent[i] = nondet_choice("parent", 4) - 1
 		verif_assume(parent[i] != i)
@@ -147,7 +159,7 @@ func verifBE(v uint32) []byte { return []byte{byte(v >> 24), byte(v >> 16), byte
 // an ancestor / connect of an unknown agent whose registration is too short / disconnect /
 // exit / kill date) from any forest over 3 agents; the forest invariant must hold afterwards.
 func H_c09_event() {
-	var parent [3]int
+	parent := make([]int, 3)
 	for i := range parent {
 		parent[i] = nondet_choice("parent", 4) - 1
 		verif_assume(parent[i] != i)
